@@ -603,6 +603,10 @@ type Options struct {
 	// least the same remaining preemption budget.  Sound for data-race-free code whose thread-local
 	// state is a function of the thread's own synchronisation history.
 	Prune bool
+	// ShallowFirst explores the alternatives of the earliest choice points first (the set of schedules explored
+	// is the same; when an exploration is cut by MaxExec or the deadline, what was covered by then deviates from
+	// the default schedule early rather than only in its tail).
+	ShallowFirst bool
 	// SymmetricSpawn lists function names whose spawned goroutines are interchangeable (identical
 	// closures without captured per-goroutine data): they start with equal history hashes.
 	SymmetricSpawn []string
@@ -689,32 +693,43 @@ func ExploreAll(opt Options, body func(), after func(x *Execution, prefix []int)
 			}
 		}
 		// children: alternatives at every point after the prefix
+		costAt := make([]int, len(x.Points))
 		cost := 0
 		for i := 0; i < len(x.Points); i++ {
+			costAt[i] = cost
+			if p := x.Points[i]; p.CurEnabled && p.Chosen > 0 {
+				cost++
+			}
+		}
+		push := func(i int) {
 			p := x.Points[i]
-			if i >= len(it.prefix) {
-				for alt := p.N - 1; alt >= 1; alt-- {
-					c := cost
-					if p.CurEnabled {
-						c++
-					}
-					if opt.Bound >= 0 && c > opt.Bound {
+			for alt := p.N - 1; alt >= 1; alt-- {
+				c := costAt[i]
+				if p.CurEnabled {
+					c++
+				}
+				if opt.Bound >= 0 && c > opt.Bound {
+					continue
+				}
+				if isRoot {
+					rootChildren++
+					if rootChildren%opt.NShards != opt.Shard {
 						continue
 					}
-					if isRoot {
-						rootChildren++
-						if rootChildren%opt.NShards != opt.Shard {
-							continue
-						}
-					}
-					np := make([]int, i+1)
-					copy(np, x.Choices[:i])
-					np[i] = alt
-					stack = append(stack, item{np, c})
 				}
+				np := make([]int, i+1)
+				copy(np, x.Choices[:i])
+				np[i] = alt
+				stack = append(stack, item{np, c})
 			}
-			if p.CurEnabled && p.Chosen > 0 {
-				cost++
+		}
+		if opt.ShallowFirst {
+			for i := len(x.Points) - 1; i >= len(it.prefix); i-- {
+				push(i)
+			}
+		} else {
+			for i := len(it.prefix); i < len(x.Points); i++ {
+				push(i)
 			}
 		}
 	}
